@@ -11,8 +11,29 @@ from . import est_gen
 from . import estimator as E
 
 
+def hump_spec(rng):
+    """A ContinuousCarver sample with a discrete quantitative feature and a hump-shaped integer target: two
+    levels that are not neighbours have exactly the same mean target."""
+    k = rng.choice([3, 4])
+    per = 12 * rng.choice([1, 2])
+    means = {3: [5, 9, 5], 4: [5, 9, 7, 5]}[k] if rng.random() < 0.5 else {3: [9, 4, 9], 4: [6, 2, 9, 6]}[k]
+    pats = [[-1, 1], [-1, 0, 1], [-2, 0, 2], [0]]
+    vals, y = [], []
+    for i, m in enumerate(means):
+        pat = pats[i % len(pats)]
+        vals += [float(i + 1)] * per
+        y += [float(m + pat[j % len(pat)]) for j in range(per)]         # (per is a multiple of every pattern length)
+    order = list(range(len(vals)))
+    rng.shuffle(order)
+    return {'cls': 'ContinuousCarver', 'features': {'q0': {'kind': 'quanti', 'values': [vals[i] for i in order]}}, 'y': [y[i] for i in order],
+            'params': {'sort_by': 'kruskal', 'min_freq': [1, 10], 'min_freq_mod': None, 'max_n_mod': rng.choice([3, 4]), 'dropna': True,
+                       'output_dtype': rng.choice(['float', 'str']), 'copy': True}}
+
+
 def base_spec(seed):
     rng = random.Random(seed)
+    if rng.random() < 0.08:
+        return hump_spec(rng)
     cls = rng.choice(['BinaryCarver', 'BinaryCarver', 'ContinuousCarver', 'MulticlassCarver'])
     spec = est_gen.random_object_spec(rng, cls, n=rng.randint(16, 56))
     spec.pop('float_dtype', None)
